@@ -68,6 +68,11 @@ func oracle(t []string, out string) *hx.Violation {
 			oRets[o]++
 			oWd[o] += i64(t[2]) - i64(t[4])
 		}
+	case "pool":
+		if out != "conflict" {
+			return &hx.Violation{Kind: "pool-guard-open", Detail: fmt.Sprintf(
+				"pair=%s/%s: the transaction pool accepts two right-consuming transactions of one stake address at the same time (the guard of C28_inv_partial is not enforced for pooled transactions)", t[2], t[3])}
+		}
 	case "crret":
 		if out == "accept" {
 			oCRRets[int(i64(t[1]))]++
@@ -304,6 +309,13 @@ func (s *genState) block(body func()) {
 	s.renewExpiring()
 	s.crSchedule()
 	body()
+	if s.r.Chance(15) { // the pool side of the guard: pairs of right-consuming txs of one stake address must collide
+		kinds := []string{"vote", "stake", "retv0", "retv1"}
+		s.g.Emit("pool %d %s %s", s.r.Intn(4), kinds[s.r.Intn(4)], kinds[s.r.Intn(4)])
+	}
+	if s.r.Chance(12) {
+		s.g.Emit("redo")
+	}
 	s.g.Emit("end")
 }
 
